@@ -16,6 +16,28 @@ INLINE_HELPERS = ('goto', 'check_index', 'mark')
 DEEP_MAX_PATHS = 8000
 
 
+def new_codegen(CG, **attrs):
+    """A CodeGen object that has not run its constructor (no program is compiled): every dataclass field that declares a
+    default / default_factory gets it (so book-keeping fields added by a refactor exist), then `attrs` are set."""
+    import dataclasses
+    g = object.__new__(CG)
+    try:
+        fields = dataclasses.fields(CG)
+    except TypeError:
+        fields = ()
+    for f in fields:
+        try:
+            if f.default is not dataclasses.MISSING:
+                setattr(g, f.name, f.default)
+            elif f.default_factory is not dataclasses.MISSING:
+                setattr(g, f.name, f.default_factory())
+        except Exception:      # noqa: BLE001 - a factory that needs more context: left unset
+            pass
+    for k, v in attrs.items():
+        setattr(g, k, v)
+    return g
+
+
 class GenFacts:
     _cache = {}
 
@@ -111,7 +133,7 @@ class GenFacts:
             CG, asm = ns.get('CodeGen'), ns.get('asm')
             L, IL = asm.LabelRef, asm.IntLiteral
             try:
-                g = object.__new__(CG)
+                g = new_codegen(CG)
                 g.argv_specs = [b'x word']
                 g.word_size = 2
                 g.stack_size = 7
